@@ -43,6 +43,14 @@ def forest(pattern):
         m2 = dict(base, x="X0")
         n["c1"]["_nsmap"] = m2
         n["g1"]["_nsmap"] = m2
+    elif pattern == "a descendant re-binds one prefix and another lacks it":
+        m = dict(base)
+        for k in KEYS:
+            n[k]["_nsmap"] = m
+        m2 = dict(base, e="OTHER")
+        n["c1"]["_nsmap"] = m2
+        n["g1"]["_nsmap"] = m2
+        n["c2"]["_nsmap"] = {"f": "F"}
     elif pattern == "empty maps, shared":
         m = {}
         for k in KEYS:
@@ -63,7 +71,7 @@ def rule_r4(ctx, rep):
         ops += [("add_namespace", target, ("x", "X")), ("add_namespace", target, ("e", "E2")), ("add_namespace", target, ("e", "E")),
                 ("remove_namespace", target, ("e",)), ("remove_namespace", target, ("zz",)), ("remove_namespace", target, ("x",))]
     broken = set()
-    for pattern in ("one shared map", "a map per node", "c1 subtree extended", "empty maps, shared"):
+    for pattern in ("one shared map", "a map per node", "c1 subtree extended", "empty maps, shared", "a descendant re-binds one prefix and another lacks it"):
         for (q, target, args) in ops:
             fi = f_add if q == "add_namespace" else f_rm
             if fi is None or q in broken:
